@@ -102,6 +102,9 @@ func runC01(env *Env, rc *RunCtx) {
 			rc.Count("probe_traverse_listing", 1)
 		}
 		rc.Note(fmt.Sprintf("exec %d trace=%016x outs=%v ret=%v", e, r.TraceHash, r.Outs, r.Returned))
+		if debugNotes {
+			rc.Note(fmt.Sprint(r.Trace))
+		}
 		w := func() map[string]any {
 			return desc(map[string]any{"schedule": r.Trace, "results": r.Outs, "request": reqs[0].Kind})
 		}
